@@ -1200,8 +1200,8 @@ func (c *ctx) poolScenarios(dec *lazyproto.Decoder, def lazyproto.Def, o optSet)
 	}
 	// 1. a nested result recycled after a decode that failed half way: the nested payload is malformed AFTER a defined field was read
 	good := field([]byte{0x08, 0x01}, 3, []byte{0x08, 0x05, 0x12, 0x01, 'x'})
-	half := field([]byte{0x08, 0x02}, 3, []byte{0x08, 0x07, 0x10})                      // field 1 = 7, then a key without value
-	absent := field([]byte{0x08, 0x03}, 3, []byte{0x12, 0x02, 'y', 'z'})                // no field 1 in the nested message
+	half := field([]byte{0x08, 0x02}, 3, []byte{0x08, 0x07, 0x10})       // field 1 = 7, then a key without value
+	absent := field([]byte{0x08, 0x03}, 3, []byte{0x12, 0x02, 'y', 'z'}) // no field 1 in the nested message
 	for _, all := range []bool{false, true} {
 		for _, in := range [][]byte{good, half, absent, half, good, absent} {
 			h := c.decodeObj(dec, def, in, o.mode, o.name)
